@@ -22,6 +22,7 @@ import (
 	"sort"
 	"strings"
 	"sync"
+	"sync/atomic"
 	"time"
 )
 
@@ -1368,6 +1369,10 @@ func (e MapEntry[K, V]) Val() V     { return e.m[e.K] }
 // MapOrders: iteration start is a scheduler choice (set by the explorer from Config.MapOrders).
 var MapOrders bool
 
+// PlainOrder: iteration order of maps in the free-running flavours (no scheduler): 0 ascending keys, 1 descending.
+// The sequential explorer (seqx) runs a scenario once per order instead of leaving the order to the runtime.
+var PlainOrder atomic.Int32
+
 func MapEntries[K comparable, V any](m map[K]V) []MapEntry[K, V] {
 	if len(m) == 0 {
 		return nil
@@ -1377,6 +1382,11 @@ func MapEntries[K comparable, V any](m map[K]V) []MapEntry[K, V] {
 		out = append(out, MapEntry[K, V]{K: k, m: m})
 	}
 	sort.Slice(out, func(i, j int) bool { return lessKey(out[i].K, out[j].K) })
+	if cur == nil && PlainOrder.Load() == 1 {
+		for i, j := 0, len(out)-1; i < j; i, j = i+1, j-1 {
+			out[i], out[j] = out[j], out[i]
+		}
+	}
 	if MapOrders && len(out) > 1 && cur != nil {
 		if _, managed := gids.Load(goid()); managed {
 			s := mine()
